@@ -278,26 +278,41 @@ func main() {
 		e.Strs("seqqlNestingStmts", sqStmts, "parseSeqQLSubexpr: top-level statements that mention lex.nesting, in order (cut to 60 characters)")
 		e.Strs("legacyNestingStmts", lgStmts, "parseSubexpr: top-level statements that mention qp.nesting, in order (cut to 60 characters)")
 		// --- the field type switches
-		if f, err := r.Load("parser/seqql_filter.go"); err != nil {
-			e.Missing("seqqlTypeCases", err)
-		} else if fd := f.Func("", "parseFulltextSearchFilter"); fd == nil {
-			e.Missing("seqqlTypeCases", "parseFulltextSearchFilter not found")
-		} else if cs, def, ok := typeSwitch(f, fd); !ok {
+		// The switch is looked for in every function of the file; the flags the driver needs are ALWAYS emitted (conservative
+		// default when the shape is not recognised, plus a Missing marker), so that a restructured source still lets the
+		// harness run and search for a failing input.
+		findSwitch := func(file string) (cs []string, def, fn string, ok bool) {
+			f, err := r.Load(file)
+			if err != nil {
+				return nil, "", "", false
+			}
+			for _, d := range f.AST.Decls {
+				fd, isFn := d.(*ast.FuncDecl)
+				if !isFn || fd.Body == nil {
+					continue
+				}
+				if c, dd, found := typeSwitch(f, fd); found {
+					return c, dd, fd.Name.Name, true
+				}
+			}
+			return nil, "", "", false
+		}
+		if cs, def, fn, ok := findSwitch("parser/seqql_filter.go"); !ok {
 			e.Missing("seqqlTypeCases", "type switch not recognised")
+			e.Bool("seqqlDefaultPanics", false, "NOT EXTRACTED - conservative default so that the driver builds")
 		} else {
-			e.Strs("seqqlTypeCases", cs, "parseFulltextSearchFilter: handled case lists of the index type switch")
-			e.Str("seqqlTypeDefault", def, "parseFulltextSearchFilter: what the default branch does")
+			e.Strs("seqqlTypeCases", cs, "SeqQL value parser: handled case lists of the index type switch")
+			e.Str("seqqlTypeSwitchFunc", fn, "function that contains the index type switch")
+			e.Str("seqqlTypeDefault", def, "what the default branch does")
 			e.Bool("seqqlDefaultPanics", def != "return-error", "default branch is not a plain error return")
 		}
-		if f, err := r.Load("parser/token_parser.go"); err != nil {
-			e.Missing("legacyTypeCases", err)
-		} else if fd := f.Func("tokenParser", "parseLiteral"); fd == nil {
-			e.Missing("legacyTypeCases", "parseLiteral not found")
-		} else if cs, def, ok := typeSwitch(f, fd); !ok {
+		if cs, def, fn, ok := findSwitch("parser/token_parser.go"); !ok {
 			e.Missing("legacyTypeCases", "type switch not recognised")
+			e.Bool("legacyDefaultPanics", false, "NOT EXTRACTED - conservative default so that the driver builds")
 		} else {
-			e.Strs("legacyTypeCases", cs, "tokenParser.parseLiteral: handled case lists of the index type switch")
-			e.Str("legacyTypeDefault", def, "tokenParser.parseLiteral: what the default branch does")
+			e.Strs("legacyTypeCases", cs, "legacy literal parser: handled case lists of the index type switch")
+			e.Str("legacyTypeSwitchFunc", fn, "function that contains the index type switch")
+			e.Str("legacyTypeDefault", def, "what the default branch does")
 			e.Bool("legacyDefaultPanics", def != "return-error", "default branch is not a plain error return")
 		}
 	}, "parser/ast_node.go", "parser/seqql.go", "parser/seqql_filter.go", "parser/query_parser.go", "parser/token_parser.go",
